@@ -86,6 +86,7 @@ func reencodeTx(tx *types.Transaction) *types.Transaction {
 }
 
 type c04World struct {
+	kind   map[common.Hash]string // how each non-original transaction hash was derived
 	c      *Ctx
 	net    *Net
 	blocks map[common.Hash]*types.Block // every block the NUT accepted or mined
@@ -120,7 +121,14 @@ func (w *c04World) checkBlock(b *types.Block, how string) bool {
 			if seenHash[k] == tx.Hash() {
 				sub += "/same-tx-hash"
 			} else {
-				sub += "/other-tx-hash"
+				via := w.kind[tx.Hash()]
+				if via == "" {
+					via = w.kind[seenHash[k]]
+				}
+				if via == "" {
+					via = "unknown"
+				}
+				sub += "/other-tx-hash-via-" + via
 			}
 			a, bb := seenAt[k], pos
 			switch {
@@ -187,7 +195,7 @@ func c04Scenario(c *Ctx) {
 		return
 	}
 	gen := f.Blocks[net.GenBlock.Hash()]
-	w := &c04World{c: c, net: net, blocks: map[common.Hash]*types.Block{gen.Hash(): gen}}
+	w := &c04World{c: c, net: net, blocks: map[common.Hash]*types.Block{gen.Hash(): gen}, kind: map[common.Hash]string{}}
 	// base transactions: transfers from the founder (always funded), expirations set relative
 	// to the time they will first be used
 	var pool []*types.Transaction // every variant ever created
@@ -217,7 +225,25 @@ func c04Scenario(c *Ctx) {
 			return tx
 		}
 		base := pool[c.Draw("gen", len(pool))]
-		switch c.Draw("gen", 5) {
+		switch c.Draw("gen", 6) {
+		case 5:
+			// the same authorised content with one more signature appended by a bystander:
+			// another transaction hash, same payload
+			if base.Type() != params.BoxTx {
+				fl := base.VerifFields()
+				fl.Sigs = nil
+				un := types.VerifNewTx(fl)
+				if s2, err := types.MakeSigner().SignTx(un, detKey("c04-bystander").Key); err == nil {
+					fl2 := base.VerifFields()
+					fl2.Sigs = append(fl2.Sigs, s2.Sigs()[0])
+					v := types.VerifNewTx(fl2)
+					pool = append(pool, v)
+					c.Fault("foreign_signature_appended")
+					w.kind[v.Hash()] = "foreign-signature-appended"
+					return v
+				}
+			}
+			return wireCopyTx(base)
 		case 0, 1:
 			c.Fault("same_tx_again")
 			return wireCopyTx(base)
@@ -226,6 +252,11 @@ func c04Scenario(c *Ctx) {
 				if re := reencodeTx(base); re != nil {
 					c.Fault("reencoded_signature")
 					pool = append(pool, re)
+					if w.kind[base.Hash()] != "" {
+						w.kind[re.Hash()] = w.kind[base.Hash()] + "+reencoded"
+					} else {
+						w.kind[re.Hash()] = "reencoded-signature"
+					}
 					return re
 				}
 			}
